@@ -52,6 +52,19 @@ Definition einfo (e : expr) : info :=
 Fixpoint strip_groups (e : expr) : expr :=
   match e with EGroup _ g => strip_groups g | _ => e end.
 
+(** [LitStr::parse] gives every token parsed out of a string literal the literal's own span. *)
+Definition respan_info (s : span) (i : info) : info := mkInfo s (i_toks i).
+Definition respan_path (s : span) (p : path) : path :=
+  mkPath (respan_info s (p_info p)) (p_leading p) (p_segs p).
+Fixpoint respan_expr (s : span) (e : expr) : expr :=
+  match e with
+  | ELit i l => ELit (respan_info s i) l
+  | EGroup i g => EGroup (respan_info s i) (respan_expr s g)
+  | EPath i p => EPath (respan_info s i) (respan_path s p)
+  | EArray i es => EArray (respan_info s i) (map (respan_expr s) es)
+  | EOther i k => EOther (respan_info s i) k
+  end.
+
 (** [darling::ast::NestedMeta]; every constructor except [NLit] is a [syn::Meta].
     [NList]: a list whose tokens parse as nested items ([ti]: the delimited tokens' own range and
     text); [NBadList]: a list whose tokens [NestedMeta::parse_meta_list] rejects, with syn's
